@@ -15,10 +15,23 @@ class C03(rt.RoundTrip):
                    "absent type may come back absent / object / type name of the default")
     policy = {"absent_default": ("absent", "none", "zero"), "ret_absent_default": ("absent",)}
 
-    def option_list(self):
-        indents = (2, 0, 1) if self.tier == "thorough" else (2,)
+    def all_options(self, indents):
         return [{"ft": ft, "inline": inl, "kwonly": kw, "indent": ind, "edd": False, "ww": True}
                 for ind in indents for ft in ("static", "self", "cls") for inl in (True, False) for kw in (True, False)]
+
+    def space(self):
+        from mc import alphabets as al
+
+        if self.tier == "thorough":
+            return rt.OptSpace(al.ir_space(self.tier), self.all_options((2, 0, 1)))
+        full = self.all_options((2,))
+        # quick: atom-exhaustive space x 6 combinations (each kind, each flag value), sequence space x 3
+        qa = [o for o in full if (o["ft"], o["inline"], o["kwonly"]) in (
+            ("static", True, True), ("static", False, False), ("self", True, False), ("self", False, True),
+            ("cls", True, True), ("cls", False, False))]
+        qb = [o for o in full if (o["ft"], o["inline"], o["kwonly"]) in (
+            ("static", True, True), ("self", False, False), ("cls", True, False))]
+        return core.Concat(rt.OptSpace(al.S_A(), qa), rt.OptSpace(al.S_B(), qb))
 
     def extra_sites(self, case, atoms, ret, text, back, cf):
         want = case["opts"]["ft"]
